@@ -1,25 +1,536 @@
 package main
 
+// Ghost state: the chain substrate (collections stores, bank balances and supply) as named heaps
+// "G_<module>_<Field>_v / _d" (DESIGN §3). All specs here are trusted (T3, T6).
+
 import (
+	"fmt"
+	"go/token"
 	"go/types"
+	"strings"
+
+	"golang.org/x/tools/go/ssa"
 )
 
 // seqT marks abstract integer sequences in contract expressions.
 var seqT = types.NewNamed(types.NewTypeName(0, nil, "specseq", nil), types.Typ[types.Int64], nil)
 
-func (e *Engine) registerGhosts(st *State) {}
+type ghostRef struct {
+	name  string // base name: G_<mod>_<Field>
+	kind  string // map | item | seq
+	kt    types.Type
+	vt    types.Type
+	ksort string
+	vsort string
+}
 
-func (e *Engine) ghostConst(name string, env *evalEnv) (Val, bool) { return Val{}, false }
+const collPkg = "cosmossdk.io/collections"
+
+func (e *Engine) registerGhosts(st *State) {
+	e.declAddr()
+	e.heapSorts["G_bank_bal"] = "(Array Addr Int)"
+	e.heapSorts["G_bank_supply"] = "Int"
+	e.initHeap("G_bank_bal", "(Array Addr Int)")
+	e.initHeap("G_bank_supply", "Int")
+	// every collections field of every keeper struct in /repo
+	for _, pkg := range e.prog.Pkgs {
+		if !strings.HasPrefix(pkg.PkgPath, modPath+"/x/") || !strings.HasSuffix(pkg.PkgPath, "/keeper") {
+			continue
+		}
+		obj := pkg.Types.Scope().Lookup("Keeper")
+		if obj == nil {
+			continue
+		}
+		st, ok := obj.Type().Underlying().(*types.Struct)
+		if !ok {
+			continue
+		}
+		mod := strings.Split(strings.TrimPrefix(pkg.PkgPath, modPath+"/x/"), "/")[0]
+		for i := 0; i < st.NumFields(); i++ {
+			f := st.Field(i)
+			if g := e.ghostForType(mod, f.Name(), f.Type()); g != nil {
+				e.ghosts[g.name] = g
+				e.declGhost(g)
+			}
+		}
+	}
+}
+
+func (e *Engine) declAddr() {
+	e.vc.declSort("(declare-sort BV 0)")
+	e.vc.declSort("(declare-sort Addr 0)")
+	e.vc.declFun("bv_of", []string{"(Array Int Int)", "Int", "Int"}, "BV")
+	e.vc.declFun("bv_len", []string{"BV"}, "Int")
+	e.vc.declFun("addr_mod", []string{"Str"}, "Addr")
+	e.vc.declFun("addr_acc", []string{"BV"}, "Addr")
+	e.vc.declFun("mod_of", []string{"Addr"}, "Str")
+	e.vc.declSort("(assert (forall ((s Str)) (! (= (mod_of (addr_mod s)) s) :pattern ((addr_mod s)))))")
+	e.vc.declSort("(assert (forall ((a (Array Int Int)) (o Int) (n Int)) (! (= (bv_len (bv_of a o n)) n) :pattern ((bv_of a o n)))))")
+}
+
+func collKind(t types.Type) (kind string, targs *types.TypeList) {
+	t = types.Unalias(t)
+	if p, ok := t.(*types.Pointer); ok {
+		t = types.Unalias(p.Elem())
+	}
+	n, ok := t.(*types.Named)
+	if !ok || n.Obj().Pkg() == nil {
+		return "", nil
+	}
+	path := n.Obj().Pkg().Path()
+	if path != collPkg && path != collPkg+"/indexes" {
+		return "", nil
+	}
+	switch n.Obj().Name() {
+	case "Map":
+		return "map", n.TypeArgs()
+	case "IndexedMap":
+		return "map", n.TypeArgs()
+	case "Item":
+		return "item", n.TypeArgs()
+	case "Sequence":
+		return "seq", nil
+	case "KeySet":
+		return "keyset", n.TypeArgs()
+	}
+	return "", nil
+}
+
+func (e *Engine) ghostForType(mod, field string, t types.Type) *ghostRef {
+	kind, targs := collKind(t)
+	if kind == "" {
+		return nil
+	}
+	g := &ghostRef{name: "G_" + mod + "_" + field, kind: kind}
+	switch kind {
+	case "map":
+		g.kt, g.vt = targs.At(0), targs.At(1)
+		g.ksort, g.vsort = e.keySort(g.kt), e.vc.sortOf(g.vt)
+	case "keyset":
+		g.kind = "map"
+		g.kt, g.vt = targs.At(0), types.Typ[types.Bool]
+		g.ksort, g.vsort = e.keySort(g.kt), "Bool"
+	case "item":
+		g.vt = targs.At(0)
+		g.vsort = e.vc.sortOf(g.vt)
+	case "seq":
+		g.vt = types.Typ[types.Uint64]
+		g.vsort = "Int"
+	}
+	return g
+}
+
+func (e *Engine) declGhost(g *ghostRef) {
+	switch g.kind {
+	case "map":
+		e.heapSorts[g.name+"_v"] = fmt.Sprintf("(Array %s %s)", g.ksort, g.vsort)
+		e.heapSorts[g.name+"_d"] = fmt.Sprintf("(Array %s Bool)", g.ksort)
+	case "item":
+		e.heapSorts[g.name+"_v"] = g.vsort
+		e.heapSorts[g.name+"_d"] = "Bool"
+	case "seq":
+		e.heapSorts[g.name+"_v"] = "Int"
+	}
+	for _, suf := range []string{"_v", "_d"} {
+		if s, ok := e.heapSorts[g.name+suf]; ok {
+			e.initHeap(g.name+suf, s)
+		}
+	}
+}
+
+func isByteSlice(t types.Type) bool {
+	sl, ok := types.Unalias(t).Underlying().(*types.Slice)
+	if !ok {
+		return false
+	}
+	b, ok := types.Unalias(sl.Elem()).Underlying().(*types.Basic)
+	return ok && b.Kind() == types.Uint8
+}
+
+func pairArgs(t types.Type) (name string, targs *types.TypeList) {
+	n, ok := types.Unalias(t).(*types.Named)
+	if !ok || n.Obj().Pkg() == nil || n.Obj().Pkg().Path() != collPkg {
+		return "", nil
+	}
+	if n.Obj().Name() == "Pair" || n.Obj().Name() == "Triple" {
+		return n.Obj().Name(), n.TypeArgs()
+	}
+	return "", nil
+}
+
+func (e *Engine) keySort(t types.Type) string { return e.vc.keySort(t) }
+
+// keyTerm converts a Go value into its store-key term.
+func (e *Engine) keyTerm(st *State, v Val) string {
+	if isByteSlice(v.T) {
+		return e.bvOf(st, v)
+	}
+	return v.S
+}
+
+func (e *Engine) bvOf(st *State, v Val) string {
+	sl := types.Unalias(v.T).Underlying().(*types.Slice)
+	hn, hs := e.vc.arrHeapName(sl.Elem())
+	return app("bv_of", app("select", e.heap(st, hn, hs), app("sptr", v.S)), app("soff", v.S), app("slen", v.S))
+}
+
+// ghostOfValue traces the receiver of a collections call back to the keeper field it was read from.
+func (e *Engine) ghostOfValue(v ssa.Value) *ghostRef {
+	for i := 0; i < 8; i++ {
+		switch x := v.(type) {
+		case *ssa.UnOp:
+			if x.Op == token.MUL {
+				v = x.X
+				continue
+			}
+		case *ssa.FieldAddr:
+			pt, ok := types.Unalias(x.X.Type()).Underlying().(*types.Pointer)
+			if !ok {
+				return nil
+			}
+			return e.ghostOfField(pt.Elem(), x.Field)
+		case *ssa.Field:
+			return e.ghostOfField(x.X.Type(), x.Field)
+		case *ssa.ChangeType:
+			v = x.X
+			continue
+		case *ssa.MakeInterface:
+			v = x.X
+			continue
+		}
+		break
+	}
+	return nil
+}
+
+func (e *Engine) ghostOfField(structT types.Type, field int) *ghostRef {
+	np := namedPath(structT)
+	if !strings.HasPrefix(np, modPath+"/x/") || !strings.HasSuffix(np, "/keeper.Keeper") {
+		return nil
+	}
+	mod := strings.Split(strings.TrimPrefix(np, modPath+"/x/"), "/")[0]
+	st := types.Unalias(structT).Underlying().(*types.Struct)
+	return e.ghosts["G_"+mod+"_"+st.Field(field).Name()]
+}
+
+// ---------- collections specs ----------
+
+func init() {
+	m := "(" + collPkg + ".Map[K, V])."
+	im := "(*" + collPkg + ".IndexedMap[PrimaryKey, Value, Idx])."
+	it := "(" + collPkg + ".Item[V])."
+	sq := "(" + collPkg + ".Sequence)."
+	ks := "(" + collPkg + ".KeySet[K])."
+	for _, p := range []string{m, im} {
+		libSpecs[p+"Get"] = func(c *callCtx) Val { return collGet(c, true) }
+		libSpecs[p+"Set"] = func(c *callCtx) Val { return collSet(c, true) }
+		libSpecs[p+"Has"] = func(c *callCtx) Val { return collHas(c) }
+		libSpecs[p+"Remove"] = func(c *callCtx) Val { return collRemove(c) }
+		libMods[p+"Set"] = collMods
+		libMods[p+"Remove"] = collMods
+	}
+	libSpecs[ks+"Has"] = func(c *callCtx) Val { return collHas(c) }
+	libSpecs[ks+"Set"] = func(c *callCtx) Val { return collSet(c, false) }
+	libSpecs[ks+"Remove"] = func(c *callCtx) Val { return collRemove(c) }
+	libMods[ks+"Set"] = collMods
+	libMods[ks+"Remove"] = collMods
+	libSpecs[it+"Get"] = func(c *callCtx) Val { return collGet(c, false) }
+	libSpecs[it+"Set"] = func(c *callCtx) Val { return collSet(c, false) }
+	libSpecs[it+"Has"] = func(c *callCtx) Val { return collHas(c) }
+	libSpecs[it+"Remove"] = func(c *callCtx) Val { return collRemove(c) }
+	libMods[it+"Set"] = collMods
+	libMods[it+"Remove"] = collMods
+	libSpecs[sq+"Peek"] = func(c *callCtx) Val {
+		g := c.e().ghostOfValue(c.common.Args[0])
+		if g == nil {
+			return c.fr.havocCall(c, true)
+		}
+		return c.tuple(c.e().heap(c.st, g.name+"_v", "Int"), "iface_nil")
+	}
+	libSpecs[sq+"Next"] = func(c *callCtx) Val {
+		e := c.e()
+		g := e.ghostOfValue(c.common.Args[0])
+		if g == nil {
+			return c.fr.havocCall(c, true)
+		}
+		cur := e.heap(c.st, g.name+"_v", "Int")
+		e.setHeap(c.st, g.name+"_v", "Int", app("+", cur, "1"))
+		return c.tuple(cur, "iface_nil")
+	}
+	libSpecs[sq+"Set"] = func(c *callCtx) Val {
+		e := c.e()
+		g := e.ghostOfValue(c.common.Args[0])
+		if g == nil {
+			return c.fr.havocCall(c, true)
+		}
+		e.setHeap(c.st, g.name+"_v", "Int", c.args[2].S)
+		return c.ret("iface_nil")
+	}
+	libMods[sq+"Next"] = collMods
+	libMods[sq+"Set"] = collMods
+	// keys
+	libSpecs[collPkg+".Join"] = func(c *callCtx) Val {
+		e := c.e()
+		srt := e.vc.sortOf(c.rt)
+		return c.def("pair", app("mk_"+srt, e.keyTerm(c.st, c.args[0]), e.keyTerm(c.st, c.args[1])))
+	}
+	libSpecs[collPkg+".Join3"] = func(c *callCtx) Val {
+		e := c.e()
+		srt := e.vc.sortOf(c.rt)
+		return c.def("triple", app("mk_"+srt, e.keyTerm(c.st, c.args[0]), e.keyTerm(c.st, c.args[1]), e.keyTerm(c.st, c.args[2])))
+	}
+}
+
+func collMods(e *Engine, cc *ssa.CallCommon) []string {
+	g := e.ghostOfValue(cc.Args[0])
+	if g == nil {
+		return []string{"G_*"}
+	}
+	return []string{g.name + "_v", g.name + "_d"}
+}
+
+func (e *Engine) notFoundErr() string {
+	e.vc.declSort("(declare-const err_notfound Iface)")
+	e.vc.declFun("errors_is", []string{"Iface", "Iface"}, "Bool")
+	e.vc.declSort("(assert (not (= err_notfound iface_nil)))")
+	return "err_notfound"
+}
+
+func collGet(c *callCtx, keyed bool) Val {
+	e := c.e()
+	g := e.ghostOfValue(c.common.Args[0])
+	if g == nil {
+		e.note("unmodelled", "collections Get on untraceable receiver in "+c.fr.fn.Name())
+		return c.fr.havocCall(c, false)
+	}
+	var dom, val string
+	if keyed {
+		k := e.keyTerm(c.st, c.args[2])
+		dom = app("select", e.heap(c.st, g.name+"_d", e.heapSorts[g.name+"_d"]), k)
+		val = app("select", e.heap(c.st, g.name+"_v", e.heapSorts[g.name+"_v"]), k)
+	} else {
+		dom = e.heap(c.st, g.name+"_d", "Bool")
+		val = e.heap(c.st, g.name+"_v", g.vsort)
+	}
+	d := e.vc.define("has", "Bool", dom)
+	v := e.vc.define("got", g.vsort, ite(d, val, e.zero(g.vt)))
+	e.assumeIn(c.st, and(e.typeInv(v, g.vt), e.allocInv(c.st, v, g.vt)))
+	nf := e.notFoundErr()
+	// the error of a missing key is (a wrapping of) collections.ErrNotFound
+	er := e.vc.fresh("geterr", "Iface")
+	e.vc.assume(and(not(eq(er, "iface_nil")), app("errors_is", er, nf)))
+	return c.tuple(v, ite(d, "iface_nil", er))
+}
+
+func collSet(c *callCtx, keyed bool) Val {
+	e := c.e()
+	g := e.ghostOfValue(c.common.Args[0])
+	if g == nil {
+		e.note("unmodelled", "collections Set on untraceable receiver in "+c.fr.fn.Name())
+		return c.fr.havocCall(c, true)
+	}
+	if g.kind == "map" && len(c.args) >= 3 {
+		k := e.keyTerm(c.st, c.args[2])
+		dn, vn := g.name+"_d", g.name+"_v"
+		e.setHeap(c.st, dn, e.heapSorts[dn], app("store", e.heap(c.st, dn, e.heapSorts[dn]), k, "true"))
+		if len(c.args) >= 4 {
+			e.setHeap(c.st, vn, e.heapSorts[vn], app("store", e.heap(c.st, vn, e.heapSorts[vn]), k, c.args[3].S))
+		} else {
+			e.setHeap(c.st, vn, e.heapSorts[vn], app("store", e.heap(c.st, vn, e.heapSorts[vn]), k, "true"))
+		}
+	} else {
+		e.setHeap(c.st, g.name+"_d", "Bool", "true")
+		e.setHeap(c.st, g.name+"_v", g.vsort, c.args[2].S)
+	}
+	return c.ret("iface_nil")
+}
+
+func collHas(c *callCtx) Val {
+	e := c.e()
+	g := e.ghostOfValue(c.common.Args[0])
+	if g == nil {
+		return c.fr.havocCall(c, false)
+	}
+	var dom string
+	if g.kind == "map" {
+		dom = app("select", e.heap(c.st, g.name+"_d", e.heapSorts[g.name+"_d"]), e.keyTerm(c.st, c.args[2]))
+	} else {
+		dom = e.heap(c.st, g.name+"_d", "Bool")
+	}
+	return c.tuple(e.vc.define("has", "Bool", dom), "iface_nil")
+}
+
+func collRemove(c *callCtx) Val {
+	e := c.e()
+	g := e.ghostOfValue(c.common.Args[0])
+	if g == nil {
+		return c.fr.havocCall(c, true)
+	}
+	if g.kind == "map" {
+		dn := g.name + "_d"
+		e.setHeap(c.st, dn, e.heapSorts[dn], app("store", e.heap(c.st, dn, e.heapSorts[dn]), e.keyTerm(c.st, c.args[2]), "false"))
+	} else {
+		e.setHeap(c.st, g.name+"_d", "Bool", "false")
+	}
+	return c.ret("iface_nil")
+}
+
+// ---------- bank ----------
+
+// coinsTotal: amount of the (single-denom) coin set.
+func (e *Engine) coinsTotal(st *State, coins Val) string {
+	sl := types.Unalias(coins.T).Underlying().(*types.Slice)
+	hn, hs := e.vc.arrHeapName(sl.Elem())
+	ss := e.vc.structInfo(sl.Elem())
+	c0 := app("select", app("select", e.heap(st, hn, hs), app("sptr", coins.S)), app("soff", coins.S))
+	e.vc.declFun("coins_total_n", []string{"Slice"}, "Int")
+	n := app("slen", coins.S)
+	t := e.vc.define("coins", "Int", ite(eq(n, "0"), "0", ite(eq(n, "1"), app(ss.fields[1], c0), app("coins_total_n", coins.S))))
+	e.assumeIn(st, app(">=", t, "0"))
+	return t
+}
+
+func (e *Engine) accAddr(st *State, v Val) string  { return app("addr_acc", e.bvOf(st, v)) }
+func (e *Engine) modAddr(v Val) string              { return app("addr_mod", v.S) }
+func (e *Engine) bankBal(st *State) string          { return e.heap(st, "G_bank_bal", "(Array Addr Int)") }
+func (e *Engine) setBankBal(st *State, t string)    { e.setHeap(st, "G_bank_bal", "(Array Addr Int)", t) }
+func (e *Engine) bankSupply(st *State) string       { return e.heap(st, "G_bank_supply", "Int") }
+func (e *Engine) setBankSupply(st *State, t string) { e.setHeap(st, "G_bank_supply", "Int", t) }
+
+// transfer: err == nil <=> bal[from] >= amt; on success amt moves from -> to.
+func (e *Engine) bankTransfer(c *callCtx, from, to, amt string) Val {
+	st := c.st
+	bal := e.bankBal(st)
+	ok := e.vc.define("bank_ok", "Bool", app(">=", app("select", bal, from), amt))
+	er := c.freshErr("bankerr")
+	b1 := app("store", bal, from, app("-", app("select", bal, from), amt))
+	b2 := app("store", b1, to, app("+", app("select", b1, to), amt))
+	e.setBankBal(st, ite(ok, b2, bal))
+	return c.ret(ite(ok, "iface_nil", er))
+}
+
+func isBankIface(c *callCtx) bool {
+	return strings.HasSuffix(namedPath(c.common.Value.Type()), ".BankKeeper")
+}
+
+func init() {
+	bank := func(name string, f func(c *callCtx) Val) {
+		invokeByMethod[name] = func(c *callCtx) (Val, bool) {
+			if !isBankIface(c) {
+				return Val{}, false
+			}
+			return f(c), true
+		}
+	}
+	// args: [recv, ctx, ...]
+	bank("SendCoinsFromAccountToModule", func(c *callCtx) Val {
+		e := c.e()
+		return e.bankTransfer(c, e.accAddr(c.st, c.args[2]), e.modAddr(c.args[3]), e.coinsTotal(c.st, c.args[4]))
+	})
+	bank("SendCoinsFromModuleToAccount", func(c *callCtx) Val {
+		e := c.e()
+		return e.bankTransfer(c, e.modAddr(c.args[2]), e.accAddr(c.st, c.args[3]), e.coinsTotal(c.st, c.args[4]))
+	})
+	bank("SendCoinsFromModuleToModule", func(c *callCtx) Val {
+		e := c.e()
+		return e.bankTransfer(c, e.modAddr(c.args[2]), e.modAddr(c.args[3]), e.coinsTotal(c.st, c.args[4]))
+	})
+	bank("MintCoins", func(c *callCtx) Val {
+		e := c.e()
+		st := c.st
+		amt := e.coinsTotal(st, c.args[3])
+		mod := e.modAddr(c.args[2])
+		e.mintBurnSite(c, "mint", c.args[2])
+		bal := e.bankBal(st)
+		e.setBankBal(st, app("store", bal, mod, app("+", app("select", bal, mod), amt)))
+		e.setBankSupply(st, app("+", e.bankSupply(st), amt))
+		return c.ret("iface_nil")
+	})
+	bank("BurnCoins", func(c *callCtx) Val {
+		e := c.e()
+		st := c.st
+		amt := e.coinsTotal(st, c.args[3])
+		mod := e.modAddr(c.args[2])
+		e.mintBurnSite(c, "burn", c.args[2])
+		bal := e.bankBal(st)
+		ok := e.vc.define("burn_ok", "Bool", app(">=", app("select", bal, mod), amt))
+		er := c.freshErr("burnerr")
+		e.setBankBal(st, ite(ok, app("store", bal, mod, app("-", app("select", bal, mod), amt)), bal))
+		e.setBankSupply(st, ite(ok, app("-", e.bankSupply(st), amt), e.bankSupply(st)))
+		return c.ret(ite(ok, "iface_nil", er))
+	})
+	bank("GetBalance", func(c *callCtx) Val {
+		e := c.e()
+		ss := e.vc.structInfo(c.rt)
+		b := app("select", e.bankBal(c.st), e.accAddr(c.st, c.args[2]))
+		e.assumeIn(c.st, app(">=", b, "0"))
+		return c.def("balcoin", app("mk_"+ss.name, c.args[3].S, b))
+	})
+	bank("HasBalance", func(c *callCtx) Val {
+		e := c.e()
+		ss := e.vc.structInfo(c.args[3].T)
+		return c.ret(app(">=", app("select", e.bankBal(c.st), e.accAddr(c.st, c.args[2])), app(ss.fields[1], c.args[3].S)))
+	})
+	invokeMods["bank"] = nil
+	for _, n := range []string{"SendCoinsFromAccountToModule", "SendCoinsFromModuleToAccount", "SendCoinsFromModuleToModule", "InputOutputCoins"} {
+		bankModNames[n] = []string{"G_bank_bal"}
+	}
+	for _, n := range []string{"MintCoins", "BurnCoins"} {
+		bankModNames[n] = []string{"G_bank_bal", "G_bank_supply"}
+	}
+	for _, n := range []string{"GetBalance", "HasBalance", "SpendableCoins", "GetSupply"} {
+		bankModNames[n] = []string{}
+	}
+}
+
+var bankModNames = map[string][]string{}
+
+type ioSite struct {
+	c              *callCtx
+	newBal, oldBal string
+	ok             string
+}
+
+// mintBurnSite records mint/burn call sites (C03 frame sweep uses the static scan; this only notes the module).
+func (e *Engine) mintBurnSite(c *callCtx, kind string, module Val) {}
+
+// ---------- contract access to ghost state ----------
+
+func (e *Engine) ghostConst(name string, env *evalEnv) (Val, bool) {
+	switch name {
+	case "bank.bal":
+		return Val{S: e.bankBal(env.st), T: ghostMapT, G: &ghostRef{name: "G_bank_bal", kind: "bank"}, GSt: env.st}, true
+	case "bank.supply":
+		return Val{S: e.bankSupply(env.st), T: specInt}, true
+	}
+	parts := strings.Split(name, ".")
+	if len(parts) == 2 {
+		if g, ok := e.ghosts["G_"+parts[0]+"_"+parts[1]]; ok {
+			switch g.kind {
+			case "map":
+				return Val{S: e.heap(env.st, g.name+"_v", e.heapSorts[g.name+"_v"]), T: ghostMapT, G: g, GSt: env.st}, true
+			case "item":
+				return Val{S: e.heap(env.st, g.name+"_v", g.vsort), T: g.vt, G: g, GSt: env.st}, true
+			case "seq":
+				return Val{S: e.heap(env.st, g.name+"_v", "Int"), T: specInt, G: g, GSt: env.st}, true
+			}
+		}
+	}
+	return Val{}, false
+}
+
+var ghostMapT = types.NewNamed(types.NewTypeName(0, nil, "ghostmap", nil), types.Typ[types.Int64], nil)
 
 // specFunc: spec-level functions available in contracts.
 func (e *Engine) specFunc(y *ECall, env *evalEnv) (Val, bool) {
+	arg := func(i int) Val { return e.eval(y.Args[i], env) }
 	switch y.Fn {
 	case "sorted":
 		// sorted(x): the ascending rearrangement of integer slice x (abstract sequence)
 		if len(y.Args) != 1 {
 			return Val{}, false
 		}
-		x := e.eval(y.Args[0], env)
+		x := arg(0)
 		sl, ok := types.Unalias(x.T).Underlying().(*types.Slice)
 		if !ok || kindOf(sl.Elem()) != kInt {
 			return e.evalErr("sorted() needs an integer slice"), true
@@ -28,6 +539,118 @@ func (e *Engine) specFunc(y *ECall, env *evalEnv) (Val, bool) {
 		hn, hs := e.vc.arrHeapName(sl.Elem())
 		arr := app("select", e.heap(env.st, hn, hs), app("sptr", x.S))
 		return Val{S: app("sorted_of", app("seq_of", arr, app("soff", x.S), app("slen", x.S))), T: seqT}, true
+	case "module":
+		return Val{S: app("addr_mod", arg(0).S), T: addrT}, true
+	case "acc":
+		return Val{S: app("addr_acc", e.bvOf(env.st, arg(0))), T: addrT}, true
+	case "bytes":
+		return Val{S: e.bvOf(env.st, arg(0)), T: bvT}, true
+	case "pair":
+		a, b := arg(0), arg(1)
+		ka, kb := e.specKey(a, env), e.specKey(b, env)
+		srt := e.pairSortOf([]string{e.specKeySort(a), e.specKeySort(b)}, "Pair")
+		return Val{S: app("mk_"+srt, ka, kb), T: bvT}, true
+	case "triple":
+		a, b, c := arg(0), arg(1), arg(2)
+		srt := e.pairSortOf([]string{e.specKeySort(a), e.specKeySort(b), e.specKeySort(c)}, "Triple")
+		return Val{S: app("mk_"+srt, e.specKey(a, env), e.specKey(b, env), e.specKey(c, env)), T: bvT}, true
+	case "exists_in", "has":
+		// has(store, key)
+		if len(y.Args) == 2 {
+			m := arg(0)
+			if m.G != nil && m.G.kind == "map" {
+				k := e.specKey(arg(1), env)
+				return Val{S: app("select", e.heap(m.GSt, m.G.name+"_d", e.heapSorts[m.G.name+"_d"]), k), T: specBool}, true
+			}
+		}
+		if len(y.Args) == 1 {
+			m := arg(0)
+			if m.G != nil && m.G.kind == "item" {
+				return Val{S: e.heap(m.GSt, m.G.name+"_d", "Bool"), T: specBool}, true
+			}
+		}
+	case "deref":
+		p := arg(0)
+		pt, ok := types.Unalias(p.T).Underlying().(*types.Pointer)
+		if !ok {
+			return e.evalErr("deref of non-pointer"), true
+		}
+		hn, hs := e.vc.heapName(pt.Elem())
+		return Val{S: app("select", e.heap(env.st, hn, hs), p.S), T: pt.Elem()}, true
+	case "blocktime":
+		c := arg(0)
+		srt := "O_" + mangle("github.com/cosmos/cosmos-sdk/types.Context")
+		_ = srt
+		cs := e.sdkCtxSort()
+		e.vc.declFun("unwrap_ctx", []string{"Iface"}, cs)
+		e.vc.declFun("ctx_time", []string{cs}, "Int")
+		if kindOf(c.T) == kIface {
+			return Val{S: app("ctx_time", app("unwrap_ctx", c.S)), T: specInt}, true
+		}
+		return Val{S: app("ctx_time", c.S), T: specInt}, true
+	case "blockheight":
+		c := arg(0)
+		cs := e.sdkCtxSort()
+		e.vc.declFun("unwrap_ctx", []string{"Iface"}, cs)
+		e.vc.declFun("ctx_height", []string{cs}, "Int")
+		if kindOf(c.T) == kIface {
+			return Val{S: app("ctx_height", app("unwrap_ctx", c.S)), T: specInt}, true
+		}
+		return Val{S: app("ctx_height", c.S), T: specInt}, true
+	case "zerotime":
+		return Val{S: timeZeroNs, T: specInt}, true
+	case "coins":
+		return Val{S: e.coinsTotal(env.st, arg(0)), T: specInt}, true
+	case "is_err":
+		// is_err(err, "pkg.ErrName")
 	}
 	return Val{}, false
+}
+
+var addrT = types.NewNamed(types.NewTypeName(0, nil, "specaddr", nil), types.Typ[types.Int64], nil)
+var bvT = types.NewNamed(types.NewTypeName(0, nil, "specbv", nil), types.Typ[types.Int64], nil)
+
+func (e *Engine) specKey(v Val, env *evalEnv) string {
+	if v.T != nil && isByteSlice(v.T) {
+		return e.bvOf(env.st, v)
+	}
+	return v.S
+}
+
+func (e *Engine) specKeySort(v Val) string {
+	if v.T != nil && isByteSlice(v.T) {
+		return "BV"
+	}
+	if v.T == bvT {
+		return "BV"
+	}
+	if v.T == specInt {
+		return "Int"
+	}
+	if v.T == nil {
+		return "Int"
+	}
+	return e.keySort(v.T)
+}
+
+func (e *Engine) pairSortOf(ks []string, name string) string {
+	sn := "K" + name + "_" + mangle(strings.Join(ks, "_"))
+	var fl []string
+	for i, k := range ks {
+		fl = append(fl, fmt.Sprintf("(%s_%d %s)", sn, i, k))
+	}
+	e.vc.declSort(fmt.Sprintf("(declare-datatypes ((%s 0)) (((mk_%s %s))))", sn, sn, strings.Join(fl, " ")))
+	return sn
+}
+
+// sdkCtxSort: the sort of sdk.Context values.
+func (e *Engine) sdkCtxSort() string {
+	for _, pkg := range e.prog.Pkgs {
+		if imp, ok := pkg.Imports["github.com/cosmos/cosmos-sdk/types"]; ok && imp.Types != nil {
+			if o := imp.Types.Scope().Lookup("Context"); o != nil {
+				return e.vc.sortOf(o.Type())
+			}
+		}
+	}
+	return "Iface"
 }
